@@ -17,7 +17,8 @@ from hypothesis import strategies as st
 
 from . import core, engines, rig, world
 
-TARGET_POOL = ['T1', 'T2', 'T3', 'T4']
+# one name is a substring of the all-targets marker, one carries a sub-target
+TARGET_POOL = ['T1', 'a', 'T3', 'HD 4 (b)']
 OUTCOMES = ['success', 'failure', 'invalid']
 
 
@@ -934,8 +935,11 @@ class Sim:
                 ev['outcome'] = OUTCOMES[op[2] % 3]
         elif kind == 'dbfault':
             # the next db.next() fails once (database briefly unavailable)
+            # (op[1]: how many calls succeed first - the fault may hit the
+            # second or third job of a batch)
             if hasattr(self.db, 'fail_next'):
                 self.db.fail_next = 1
+                self.db.fail_skip = op[1] if len(op) > 1 else 0
         elif kind == 'tgtfault':
             # db.targets() fails once while the farm handles the next reply
             self.tgtfault_armed = True
@@ -1161,7 +1165,9 @@ def op_strategy(weights=None):
                           st.integers(0, 5)).map(list)] * w['status']
     choices += [st.tuples(st.just('reload'), small).map(list)] * w['reload']
     choices += [st.just(['archived'])] * w['archived']
-    choices += [st.just(['dbfault'])] * w['dbfault']
+    choices += [st.tuples(st.just('dbfault'),
+                          st.sampled_from([0, 0, 1, 1, 2])).map(list)
+                ] * w['dbfault']
     choices += [st.just(['tgtfault'])] * w['tgtfault']
     choices += [st.tuples(st.just('timer'),
                           st.sampled_from([0, 0, 0, 0, 1, 2, 3])).map(list)
@@ -1258,6 +1264,9 @@ def run_history(case, on_event, at_end=None, pid=None, setup=None):
         raise
     if case.get('seg'):
         out.label('worker-messages-arrive-in-pieces')
+    if any(r['to'] == i for i, al in enumerate(case['spec']['algs'])
+           for r in al['inputs']):
+        out.label('algorithm-reads-back-its-own-output')
     try:
         if setup is not None:
             setup(sim)
